@@ -97,8 +97,7 @@ fn supervise(args: &[String], mode: &Mode) -> i32 {
             let (seed, index) = match (field("seed="), field("run_index=")) {
                 (Some(s), Some(i)) => (s, i),
                 _ => {
-                    eprintln!("HARNESS-ERROR: the worker process was killed by signal {} outside any simulated run", signal);
-                    return 2;
+                    return with_engine!(args[0].as_str(), e => handle_batch_crash(e, o, None, signal));
                 }
             };
             with_engine!(args[0].as_str(), e => handle_crash(e, o, seed, index, signal))
@@ -159,6 +158,37 @@ fn main() {
     let mode = if args[1] == "--replay" {
         if args.len() < 3 {
             usage();
+        }
+        // a batch-level crash replay re-runs the recorded batch
+        if std::env::var_os("TW2SIM_CHILD").is_none() {
+            if let Some(rf) = std::fs::read_to_string(&args[2]).ok().and_then(|s| serde_json::from_str::<ReplayFile>(&s).ok()) {
+                if let Some(b) = rf.case.get("batch") {
+                    let exe = std::env::current_exe().unwrap();
+                    let out = std::process::Command::new(exe)
+                        .arg(&prop)
+                        .arg(b["tier"].as_str().unwrap_or("quick"))
+                        .args(["--runs", &b["runs"].as_u64().unwrap_or(1000).to_string(), "--workers", &b["workers"].as_u64().unwrap_or(16).to_string(), "--no-evidence"])
+                        .env("VERIF_SEED", b["verif_seed"].as_u64().unwrap_or(1).to_string())
+                        .env("TW2SIM_CHILD", "1")
+                        .output();
+                    match out {
+                        Ok(o) if crash_signal_of(&o.status, &String::from_utf8_lossy(&o.stderr)).is_some() => {
+                            println!("observation: the recorded batch crashed again");
+                            println!("signature: {:?}", rf.signature);
+                            println!("VIOLATION property={} replay={}", rf.property, args[2]);
+                            std::process::exit(1);
+                        }
+                        Ok(_) => {
+                            println!("replay clean: the recorded batch ran without a crash (recorded: {:?})", rf.signature);
+                            std::process::exit(0);
+                        }
+                        Err(e) => {
+                            eprintln!("HARNESS-ERROR: cannot spawn the batch: {}", e);
+                            std::process::exit(2);
+                        }
+                    }
+                }
+            }
         }
         Mode::Replay(PathBuf::from(&args[2]), args.iter().any(|a| a == "--quiet"))
     } else {
